@@ -1,7 +1,6 @@
 package p05
 
 import (
-	"unsafe"
 	"fmt"
 	"os"
 	"path/filepath"
@@ -10,6 +9,7 @@ import (
 	"sync"
 	"sync/atomic"
 	"time"
+	"unsafe"
 
 	"github.com/anishathalye/porcupine"
 
